@@ -52,6 +52,23 @@ def gen(progs, seed, only=None):
             else:
                 full = (1 << s.base_bits) - 1
                 vals = [0, full, int("AA" * 16, 16) & full, int("55" * 16, 16) & full] + [rnd.getrandbits(s.base_bits) for _ in range(2000)]
+                # boundary raw values: single bits, low/high masks around every native width, and per field: only that field
+                # at its extreme values (min/max of the signed reading, all ones) with the rest clear / set
+                for k in sorted({7, 8, 15, 16, 31, 32, 62, 63, 64, 65, 95, 96, 126, 127, s.base_bits - 1}):
+                    if 0 <= k < s.base_bits:
+                        vals += [1 << k, (1 << k) - 1, full ^ ((1 << k) - 1), full ^ (1 << k), (1 << k) | 1]
+                for f in s.fields:
+                    for i in range(min(f.count, 3)):
+                        m = f.mask(i)
+                        bits_ = [b for b in range(s.base_bits) if (m >> b) & 1]
+                        for pat in (m, 0):
+                            vals += [pat, full ^ m | pat]
+                        # value with only the field's top value bit set / clear (sign boundary), placed through the bit list in
+                        # ascending storage order (good enough as a boundary pattern for any declaration order)
+                        for fr in f.ranges[-1:]:
+                            topbit = 1 << (fr[0] + fr[1] - 1 + i * f.stride)
+                            vals += [topbit, m ^ topbit, full ^ topbit]
+                vals = [v & full for v in vals]
                 loop = "for raw in [" + ", ".join(f"{v}u128" for v in vals) + "]"
                 n = len(vals)
             body.append(f"""    {{ let mut n = 0u64; let mut first = true;
